@@ -1,4 +1,5 @@
 import WP.Model.Sdk
+import WP.Model.FeeRate
 import WP.Gen.SdkConsts
 import WP.Gen.TickConsts
 /-
@@ -34,6 +35,18 @@ theorem sdk_ladders_eq :
   decide +kernel
 
 theorem sdk_inverse_same : sdkInverseConsts = progInverseConsts ∧ sdkInverseSameText = true := by
+  decide +kernel
+
+/-- the constants the SDK's swap quote uses are the program's (regenerated from both sources on every run) and the ones
+    the models of the fee manager are written with -/
+theorem sdk_shared_consts_eq :
+    sdkSharedConsts = [("FEE_RATE_DENOMINATOR", (FEE_RATE_MUL_VALUE : Int)), ("MIN_SQRT_PRICE", (MIN_SQRT_PRICE_X64 : Int)),
+      ("MAX_SQRT_PRICE", (MAX_SQRT_PRICE_X64 : Int)), ("TICK_ARRAY_SIZE", (TICK_ARRAY_SIZE : Int)), ("MIN_TICK_INDEX", MIN_TICK_INDEX),
+      ("MAX_TICK_INDEX", MAX_TICK_INDEX), ("FULL_RANGE_ONLY_TICK_SPACING_THRESHOLD", (FULL_RANGE_ONLY_TICK_SPACING_THRESHOLD : Int)),
+      ("FEE_RATE_HARD_LIMIT", (FEE_RATE_HARD_LIMIT : Int)), ("MAX_REFERENCE_AGE", (MAX_REFERENCE_AGE : Int)),
+      ("VOLATILITY_ACCUMULATOR_SCALE_FACTOR", (VOLATILITY_ACCUMULATOR_SCALE_FACTOR : Int)),
+      ("REDUCTION_FACTOR_DENOMINATOR", (REDUCTION_FACTOR_DENOMINATOR : Int)),
+      ("ADAPTIVE_FEE_CONTROL_FACTOR_DENOMINATOR", (ADAPTIVE_FEE_CONTROL_FACTOR_DENOMINATOR : Int))] := by
   decide +kernel
 
 theorem consts : TWO256 = 115792089237316195423570985008687907853269984665640564039457584007913129639936 ∧
